@@ -109,8 +109,8 @@ package proto
 //@ func (*Message).Array
 //@ flag nilable_recv
 //@ assigns nothing
-//@ ensures msg != nil && msg.Type == ArrayMessage ==> result0 == msg.array && err == nil
-//@ ensures msg == nil || msg.Type != ArrayMessage ==> result0 == nil && err != nil
+//@ ensures msg != nil && msg.Type == ArrayMessage && msg.array != nil ==> result0 == msg.array && err == nil
+//@ ensures msg == nil || msg.Type != ArrayMessage || msg.array == nil ==> result0 == nil && err != nil
 
 //@ spec func isLine(t int) bool = (t == 0 || t == 1 || t == 2)
 //@ spec func frameHead(p bytes) bool = len(p) >= 3 && isTypeByte(p[0]) && p[len(p)-2] == 13 && p[len(p)-1] == 10
@@ -168,8 +168,7 @@ package proto
 //@ ensures array.index == old(array.index)
 
 //@ func (*Message).Append
-//@ requires msg.Type == ArrayMessage ==> msg.array != nil
-//@ ensures msg.Type == ArrayMessage <==> err == nil
+//@ ensures (msg.Type == ArrayMessage && msg.array != nil) <==> err == nil
 
 //@ func (*Array).ReverseBy
 //@ requires {C07,C12} (step == 1 || step == 2) && len(array.msgs) % step == 0
@@ -280,7 +279,7 @@ package proto
 //@ func (*Parser).nextArrayMessage
 //@ requires parser.reader != nil
 //@ requires 0 <= S_pos && S_pos <= S_end && S_end <= 17592186044416
-//@ assigns S_pos
+//@ assigns S_pos, requests
 //@ decreases 3 * (S_end - S_pos) + 2
 //@ ensures {C06,C11} old(S_pos) <= S_pos && S_pos <= S_end
 //@ ensures {C06} (err == nil && result0 != nil) || (err != nil && result0 == nil)
@@ -291,7 +290,7 @@ package proto
 //@ requires parser != nil && parser.reader != nil
 //@ requires 0 <= S_pos && S_pos <= S_end && S_end <= 17592186044416
 //@ flag alloc_bounded_by MaxArraySize
-//@ assigns S_pos
+//@ assigns S_pos, requests
 //@ decreases 3 * (S_end - S_pos) + 1
 //@ ensures {C06,C11} old(S_pos) <= S_pos && S_pos <= S_end
 //@ ensures {C06} (err == nil && result0 != nil) || (err != nil && result0 == nil)
